@@ -11,7 +11,7 @@ NA = {
  "C16": "pure string function judged by a deterministic external shell",
  "C17": "pure string function",
 }
-PENDING = ["C05", "C15", "C18", "C20"]
+PENDING = ["C18", "C20"]
 SIM = "deterministic simulation: seeded search over schedules and faults on the mechanically rewritten real code, oracle over the recorded history, minimised replay file"
 CHECKS = {
  "C06": dict(world="laneworld", ref="5.1", tech=SIM + "; exactly-once ledger per task object, bounded liveness at simulator quiescence",
@@ -32,6 +32,10 @@ CHECKS = {
    text="Seeded schedules of 1..4 simulated goroutines logging and deriving through shared loggers of all three handlers, with the simulator choosing which pooled buffer comes back (fresh, most recent, stale) and a destination that is slow, writes short or fails; the oracle over the writer's history requires no overlapping Write, exactly one Write per enabled record carrying exactly the line the same record gives when logged alone, nothing for records below the threshold, nothing else."),
  "C03": dict(world="logworld", ref="5.2", tech=SIM + "; derivation-tree histories (sequential and concurrent), every line compared with an isolated replay of that logger's own chain and with the chain folded into call-site form",
    text="Seeded derivation trees of up to 12 loggers built before and during the run (several children of derived parents, concurrent derivation from a shared parent), a probe record through every node at the end; each line must equal the line of a logger built alone from a fresh root by replaying only its own chain, and (source off) the line of an underived root given the chain folded into the call's attribute list."),
+ "C05": dict(world="httpworld", ref="5.3", tech=SIM + "; pool reuse decided by the simulator, concurrent in-flight requests, differential against the same request on a fresh Mux, happens-before race detection on Store fields",
+   text="Seeded request histories over one Mux (matching, partially matching, unmatched, panicking handlers) from 1..4 concurrent clients, with the simulator choosing which pooled Store each request gets and further routes registered between batches; everything a handler can observe through Store (route, every parameter name anywhere in the table, RouteParamAny, initial status) must equal what the same request observes on a fresh Mux with the routes registered at that moment; IDs must be constant within a request and pairwise distinct; the race detector watches Store/Params/ResponseWriter fields."),
+ "C15": dict(world="httpworld", ref="5.3", tech=SIM + "; generated handler behaviours and failing client connection, log records paired by request ID against what the simulated client received",
+   text="1..6 concurrent clients send requests through Mux + Logger.Relay over each log handler; per request the handler behaviour is generated (status, body, panic before/after the status/after a partial body, eight kinds of panic value including nil-like ones, client connection failing); oracle per request: no panic leaves ServeHTTP, 500 exactly when the panic preceded any status, one REQ_BEG and one REQ_END with the request's method/URI/IP/ID and the code the client received, one Error record with the panic value iff it panicked."),
 }
 NOTE = "Trusted base: the simgo rewriter (chan/select/go -> simrt calls, import shims, in-place access instrumentation) preserves the semantics of the rewritten package; simrt's primitives conform to the Go spec and memory model (conformance suite with exact outcome sets and a two-sided race-detector self-test run in setup_cmd); the harness oracles. Sampling over bounded configurations, not proof."
 m = {
